@@ -55,6 +55,12 @@ typedef struct BindFormat {
     int (*legacy_get_raw)(void *pdu, int field, void *val);   /* val passed through unchanged (may be NULL) */
 } BindFormat;
 
+/* pointer-free public functions that are not part of the baseline API (bindings/baseline_api.txt): callable without preconditions */
+typedef struct BindExtra { const char *name; uint64_t (*fn)(uint64_t, uint64_t, uint64_t, uint64_t); unsigned nparams; } BindExtra;
+extern const BindExtra bind_extras[];
+extern const unsigned bind_nextras;
+extern const char *const bind_new_uncallable[];  /* new API that takes pointers: reported, not called */
+
 extern const BindFormat *const bind_formats[];
 extern const unsigned bind_nformats;
 
